@@ -53,6 +53,29 @@ func main() {
 		for _, s := range scn.Samples {
 			fmt.Printf("sample: dec=%v tape=%v traces=%v\n", s.Decisions, s.Tape, s.Traces)
 		}
+		if os.Getenv("VERIF_NOREPLAY") == "" {
+			rp := NewReplayer("run")
+			var reqs []ReplayReq
+			for i, v := range scn.Violations {
+				reqs = append(reqs, ReplayReq{ID: i, Harness: scn.Harness, Params: scn.Params, Tape: v.Tape})
+			}
+			for i, s := range scn.Samples {
+				reqs = append(reqs, ReplayReq{ID: 1000 + i, Harness: scn.Harness, Params: scn.Params, Tape: s.Tape})
+			}
+			res, err := rp.Run(reqs)
+			if err != nil {
+				fmt.Println("replay error:", err)
+				os.Exit(2)
+			}
+			fmt.Printf("replay binary built in %v\n", rp.buildT)
+			for i, v := range scn.Violations {
+				fmt.Printf("native[%d] expected %s/%q -> %s/%q %s\n", i, v.Kind, v.Tag, res[i].Outcome, res[i].Tag, res[i].Msg)
+			}
+			for i, s := range scn.Samples {
+				r := res[1000+i]
+				fmt.Printf("native sample[%d] -> %s traces equal=%v\n", i, r.Outcome, fmt.Sprint(r.Traces) == fmt.Sprint(s.Traces))
+			}
+		}
 	default:
 		fmt.Fprintln(os.Stderr, "unknown command", os.Args[1])
 		os.Exit(2)
